@@ -283,16 +283,15 @@ Proof.
   destruct (get k u) as [[b|]|]; reflexivity.
 Qed.
 
-(* FC11a.  What the property asks of "set the linter's configuration to u2" is fill_with_curated cur u2.  The
-   wasm Linter merges u2 into what it already holds, so a rule that u1 switched off and u2 leaves null stays
-   off: witness over the real table, SpellCheck. *)
+(* harper-wasm over the real defaults (since b67a243): after ANY history of settings objects the switch of a
+   real rule is what the LAST object says explicitly, else the rule's real default — "rules the user has not
+   mentioned take their curated defaults when a user configuration is overlaid" (was finding FC11a; the
+   behaviour before the fix is kept in History/C11History.v). *)
 Definition k_SpellCheck : key := [83; 112; 101; 108; 108; 67; 104; 101; 99; 107]%N.
-Lemma wasm_null_does_not_reset :
-  exists (u1 u2 : config) (k : key),
-    wf u1 /\ wf u2 /\ get k u2 = Some None /\
-    is_rule_enabled (fill_with_curated curated_cfg u2) k = true /\
-    is_rule_enabled (fill_with_curated curated_cfg (merge_seq (clear curated_cfg) [u1; u2])) k = false.
+Theorem wasm_history_curated (us : list config) (u : config) k dflt : wf u ->
+  In (k, dflt) (curated_struct_rules ++ curated_pattern_rules) ->
+  is_rule_enabled (fill_with_curated curated_cfg (wasm_seq (clear curated_cfg) (us ++ [u]))) k
+  = match get k u with Some (Some b) => b | _ => dflt end.
 Proof.
-  exists [(k_SpellCheck, Some false)], [(k_SpellCheck, None)], k_SpellCheck.
-  repeat split; try exact I; vm_compute; reflexivity.
+  intros Hu Hin. rewrite (wasm_history _ us _ curated_wf Hu). now apply overlay_curated.
 Qed.
